@@ -389,3 +389,15 @@ def ddmin(items, test):
                 break
             n = min(len(items), n * 2)
     return items
+
+
+def run_lines_par(exe, lines, jobs=None, **kw):
+    """run_lines over several processes (order preserved)."""
+    jobs = jobs or NCPU
+    if len(lines) < 4 * jobs:
+        return run_lines(exe, lines, **kw)
+    size = (len(lines) + jobs - 1) // jobs
+    chunks = [lines[i:i + size] for i in range(0, len(lines), size)]
+    with ThreadPoolExecutor(jobs) as ex:
+        res = list(ex.map(lambda c: run_lines(exe, c, **kw), chunks))
+    return [x for r in res for x in r]
